@@ -42,6 +42,13 @@ static var Wr_Current(void) { wr_calls[5]++; return &wr_marker; }
 static const char* Wr_Name(void) { wr_calls[6]++; return "WrDoc"; }
 var Wr = Cello(Wr, Instance(Size, Wr_Size), Instance(Alloc, Wr_Alloc, Wr_Dealloc), Instance(New, Wr_New, Wr_Del), Instance(Current, Wr_Current),
   Instance(Doc, Wr_Name, NULL, NULL, NULL, NULL, NULL));
+/* types that declare a Pointer instance with ONE member only: the library invokes the member that is there and never the empty one */
+struct POnlyRef { var target; }; struct POnlyDeref { var target; };
+static long po_calls[2];
+static void POnlyRef_Ref(var self, var obj) { po_calls[0]++; ((struct POnlyRef*)self)->target = obj; }
+static var POnlyDeref_Deref(var self) { po_calls[1]++; return ((struct POnlyDeref*)self)->target; }
+var POnlyRef = Cello(POnlyRef, Instance(Pointer, POnlyRef_Ref, NULL));
+var POnlyDeref = Cello(POnlyDeref, Instance(Pointer, NULL, POnlyDeref_Deref));
 static var* BT[NB]; static const char* BTN[NB];
 static var* CL[NC]; static const char* CLN[NC]; static int CLM[NC];     /* member counts */
 #define MAXRT 64
@@ -225,6 +232,24 @@ int main(int argc, char** argv) {
       HC_TRY(r = (cast(o, type_no(u)) == o) ? 1 : 0);
       ev_begin("cast"); ev_int("t", t); ev_int("u", u); ev_int("r", r); ev_str("exc", hc_exc);
       ev_int("own", type_no(t) == CastAny ? 1 : type_no(t) == CastNone ? 2 : 0); ev_end();       /* what the object's type declares for Cast */
+      continue;
+    }
+    if (hc_is(0, "halfptr")) {
+      long bad = 0; po_calls[0] = po_calls[1] = 0;
+      HC_TRY(
+        var tgt = new_raw(Int, $I(5));
+        var a = alloc_raw(POnlyRef); var b = alloc_raw(POnlyDeref); ((struct POnlyDeref*)b)->target = tgt;
+        var r1 = alloc_raw(Ref); var r2 = alloc_raw(Ref);
+        assign(r1, a);                                   /* no deref member: the Ref refers to the object itself */
+        if (deref(r1) != a) bad |= 1;
+        assign(r2, b);                                   /* a deref member: the Ref refers to what the object refers to */
+        if (deref(r2) != tgt || po_calls[1] != 1) bad |= 2;
+        ref(a, tgt); if (((struct POnlyRef*)a)->target != tgt || po_calls[0] != 1) bad |= 4;
+        if (implements_method(a, Pointer, deref) || !implements_method(a, Pointer, ref) || implements_method(b, Pointer, ref) || !implements_method(b, Pointer, deref)) bad |= 8;
+        var arr = new_raw(Array, Ref, a, b);             /* ... also when stored as elements */
+        if (deref(get(arr, $I(0))) != a || deref(get(arr, $I(1))) != tgt) bad |= 16;
+        del_raw(arr));
+      ev_begin("wrappers"); ev_int("bad", bad); ev_str("exc", hc_exc); ev_end();
       continue;
     }
     if (hc_is(0, "wrappers")) {           /* the functions that take a TYPE (size, alloc, new, del, current, name): each goes through what that type declares */
